@@ -1379,3 +1379,50 @@ Proof.
   repeat (destruct Hx as [<- | Hx]; [try reflexivity; try discriminate Hd; try (now contradiction Hk)|]).
   contradiction.
 Qed.
+
+(** ** B.7 the output node: a registered output is replaced by its read node, which survives pruning *)
+Lemma redirect_registered : forall es c e ce,
+  NoDup (map enode es) -> In (e, ce) (entry_ids c es) ->
+  redirect c es (Some (enode e)) = Some (read_id ce).
+Proof.
+  unfold redirect. induction es as [|e0 es IH]; intros c e ce Hnd Hin; cbn [entry_ids] in *; [contradiction|].
+  cbn [find fst]. cbn [map] in Hnd. inversion Hnd as [|? ? Hno Hnd']; subst.
+  destruct Hin as [Heq | Hin].
+  - inversion Heq; subst. now rewrite Nat.eqb_refl.
+  - assert (Hne : enode e0 <> enode e).
+    { intros Heq. apply Hno. rewrite Heq. now apply (entry_reg _ _ _ _ Hin). }
+    apply Nat.eqb_neq in Hne. rewrite Hne. now apply IH.
+Qed.
+
+Lemma redirect_unregistered : forall es c o,
+  ~ In o (map enode es) -> redirect c es (Some o) = Some o.
+Proof.
+  unfold redirect. induction es as [|e0 es IH]; intros c o Hno; cbn [entry_ids find fst]; [reflexivity|].
+  assert (Hne : enode e0 <> o) by (intros H; apply Hno; cbn; now left).
+  apply Nat.eqb_neq in Hne. rewrite Hne. apply IH. intros H. apply Hno. cbn. now right.
+Qed.
+
+Theorem C09_output_is_read_node p c es e ce :
+  tctx p c es -> In (e, ce) (entry_ids c es) ->
+  snd (physical p c es (Some (enode e))) = Some (read_id ce) /\
+  In (read_id ce) (pnodes (fst (physical p c es (Some (enode e))))).
+Proof.
+  intros Ht Hin. pose proof Ht as [_ [_ [Hnd _]]].
+  unfold physical. cbn [fst snd]. rewrite (redirect_registered es c e ce Hnd Hin). split; [reflexivity|].
+  apply prune_keeps_output. apply (transform_nodes _ es p c Ht). right. exists e, ce. auto.
+Qed.
+
+Theorem C09_unregistered_output_kept p c es o :
+  tctx p c es -> In o (pnodes p) -> ~ In o (map enode es) ->
+  snd (physical p c es (Some o)) = Some o /\ In o (pnodes (fst (physical p c es (Some o)))).
+Proof.
+  intros Ht Ho Hno. unfold physical. cbn [fst snd]. rewrite (redirect_unregistered es c o Hno).
+  split; [reflexivity|]. apply prune_keeps_output. apply (transform_nodes _ es p c Ht). now left.
+Qed.
+
+Example ex_B7 :
+  snd (physical ex_p 5 ex_es (Some 4)) = Some 11 /\ In 11 (pnodes (fst (physical ex_p 5 ex_es (Some 4)))).
+Proof.
+  assert (Hin : In (ex_e4, 10) (entry_ids 5 ex_es)) by (cbn; auto).
+  exact (C09_output_is_read_node ex_p 5 ex_es ex_e4 10 ex_tctx Hin).
+Qed.
